@@ -5,6 +5,7 @@
 __author__ = ["Markus Löning"]
 __all__ = ["TabularToSeriesAdaptor"]
 
+import numpy as np
 import pandas as pd
 from sklearn.base import clone
 from sklearn.utils.metaestimators import if_delegate_has_method
@@ -14,7 +15,7 @@ from sktime.utils.validation.series import check_series
 
 
 def _from_series_to_2d_numpy(x):
-    x = x.to_numpy()
+    x = np.asarray(x)
     if x.ndim == 1:
         x = x.reshape(-1, 1)
     return x
@@ -96,7 +97,7 @@ class TabularToSeriesAdaptor(_SeriesToSeriesTransformer):
         self.check_is_fitted()
         Z = check_series(Z)
         Zt = self.transformer_.transform(_from_series_to_2d_numpy(Z))
-        return _from_2d_numpy_to_series(Zt, index=Z.index)
+        return _from_2d_numpy_to_series(Zt, index=getattr(Z, "index", None))
 
     @if_delegate_has_method(delegate="transformer")
     def inverse_transform(self, Z, X=None):
@@ -114,4 +115,4 @@ class TabularToSeriesAdaptor(_SeriesToSeriesTransformer):
         self.check_is_fitted()
         Z = check_series(Z)
         Zt = self.transformer_.inverse_transform(_from_series_to_2d_numpy(Z))
-        return _from_2d_numpy_to_series(Zt, index=Z.index)
+        return _from_2d_numpy_to_series(Zt, index=getattr(Z, "index", None))
